@@ -17,9 +17,9 @@ import (
 
 // SelWatch is a filtered kind watch.
 type SelWatch struct {
-	Sel     int       `json:"sel"`  // index into Selectors
-	Site    string    `json:"site"` // direct | remote
-	Spec    WatchSpec `json:"spec"`
+	Sel  int       `json:"sel"`  // index into Selectors
+	Site string    `json:"site"` // direct | remote
+	Spec WatchSpec `json:"spec"`
 }
 
 // C14Case is a C14 run.
